@@ -19,6 +19,13 @@ mod engine;
 mod tests;
 
 pub use engine::{JobKind, PPGEvaluator};
+#[cfg(tyberiusprime_pypipegraph2_verif)]
+pub use engine::verif_hooks;
+#[cfg(tyberiusprime_pypipegraph2_verif)]
+pub use engine::{
+    JobOutputResult, JobState, JobStateAlways, JobStateEphemeral, JobStateOutput, Required,
+    ValidationStatus,
+};
 
 static LOGGER_INIT: Once = Once::new();
 
@@ -619,4 +626,51 @@ fn pypipegraph2(_py: Python, m: &Bound<PyModule>) -> PyResult<()> {
     m.add_function(wrap_pyfunction!(enable_logging_to_file, m)?)?;
     m.add_class::<PyPPG2Evaluator>()?;
     Ok(())
+}
+
+/// Verification-only strategy (cfg tyberiusprime_pypipegraph2_verif): the
+/// trait above mentions types of the private `engine` module, so no strategy
+/// can be written outside this crate. This one forwards to plain closures.
+#[cfg(tyberiusprime_pypipegraph2_verif)]
+#[derive(Clone)]
+pub struct VerifStrategy {
+    pub output_already_present: Rc<dyn Fn(&str) -> bool>,
+    /// (upstream id, downstream id, last recorded, current) -> altered?
+    pub is_history_altered: Rc<dyn Fn(&str, &str, &str, &str) -> bool>,
+    /// (job id, ids of the direct upstreams, sorted) -> input list
+    pub get_input_list: Rc<dyn Fn(&str, &[&str]) -> String>,
+}
+
+#[cfg(tyberiusprime_pypipegraph2_verif)]
+impl PPGEvaluatorStrategy for VerifStrategy {
+    fn output_already_present(&self, query: &str) -> bool {
+        (self.output_already_present)(query)
+    }
+    fn is_history_altered(
+        &self,
+        job_id_upstream: &str,
+        job_id_downstream: &str,
+        last_recorded_value: &str,
+        current_value: &str,
+    ) -> bool {
+        (self.is_history_altered)(
+            job_id_upstream,
+            job_id_downstream,
+            last_recorded_value,
+            current_value,
+        )
+    }
+    fn get_input_list(
+        &self,
+        node_idx: engine::NodeIndex,
+        dag: &engine::GraphType,
+        jobs: &[engine::NodeInfo],
+    ) -> String {
+        let mut names: Vec<&str> = dag
+            .neighbors_directed(node_idx, petgraph::Direction::Incoming)
+            .map(|u| jobs[u].get_job_id())
+            .collect();
+        names.sort();
+        (self.get_input_list)(jobs[node_idx].get_job_id(), &names)
+    }
 }
